@@ -401,7 +401,7 @@ class Env:
             def f(*a, **kw):
                 cb[j].append((tag, self.world.now))
                 if t.get('cb_raises') and tag in ('ok', 'err'):
-                    raise KeyError('callback failed (propagated)')
+                    raise tasks.CallbackError('callback failed (propagated)')
             return f
         if kind == 'apply':
             arg = tasks.Unsendable() if t.get('unsendable') else t.get('arg', j)
@@ -412,12 +412,16 @@ class Env:
             try:
                 h = pool.apply_async(
                     fn, (arg,), callback=mk('ok'), error_callback=mk('err'),
-                    accept_callback=mk('acc'), timeout_callback=lambda **kw:
-                    cb[j].append(('to', self.world.now, kw.get('soft'),
-                                  kw.get('timeout'))),
+                    accept_callback=mk('acc'), timeout_callback=lambda **kw: (
+                        cb[j].append(('to', self.world.now, kw.get('soft'),
+                                      kw.get('timeout'))),
+                        # an embedder whose timeout callback pumps results
+                        t.get('pump_on_timeout') and [
+                            self.ev_deliver() for _ in range(4)
+                            if self.outbuf.data]),
                     soft_timeout=t.get('soft'), timeout=t.get('hard'),
                     lost_worker_timeout=t.get('lost'),
-                    callbacks_propagate=(KeyError,) if t.get('cb_raises')
+                    callbacks_propagate=(tasks.CallbackError,) if t.get('cb_raises')
                     else ())
             finally:
                 pool.threads = prev
@@ -638,7 +642,7 @@ class Env:
             self.outq_times.popleft()
         try:
             self.pool.handle_result_event()
-        except KeyError as exc:
+        except tasks.CallbackError as exc:
             if 'callback failed (propagated)' not in str(exc):
                 raise
             # callbacks_propagate: the embedder sees the callback's error
@@ -669,7 +673,9 @@ class Env:
         self.last_tick = self.world.now
 
     def ev_scan(self):
+        k0 = len(self.world.kills)
         self.pool._timeout_handler.handle_event()
+        self.scan_kills = self.world.kills[k0:]
 
     def ev_adv(self, k):
         self.world.now = self.deadlines()[k]
